@@ -40,6 +40,38 @@ fn check_program_inner(ctx: &mut Ctx, p: &Program) {
         let owned = b.clone().into_owned();
         let mut d = vec![0x5Au8; bl + 8];
         alt.push(("into_owned().write_into(dirty)", owned.write_into(&mut d).map(|n| d[..n].to_vec()).map_err(|e| format!("{e:?}"))));
+        // additions that are refused leave no trace in what is serialised afterwards: a raw and a typed
+        // attribute of a type already present, anything after a seal, a seal out of order
+        {
+            const V9: [u8; 9] = [0xEE; 9];
+            const V5: [u8; 5] = [0x11; 5];
+            let mut rb = apply_program(p, &objs)?;
+            let mut refused_ok = 0u32;
+            let mut accepted: Option<String> = None;
+            if let Some(a0) = p.attrs.first() {
+                if rb.add_raw_attribute(RawAttribute::new(AttributeType::new(a0.ty()), &V9)).is_err() { refused_ok += 1 } else { accepted = Some(format!("raw attribute of type {:#06x}, already present", a0.ty())) }
+            }
+            if let Some((i, _)) = p.attrs.iter().enumerate().find(|(_, a)| matches!(a, AttrSpec::Typed(..))) {
+                if let Obj::Typed(o) = &objs[i] {
+                    if rb.add_attribute(o.as_ref()).is_err() { refused_ok += 1 } else { accepted = Some("typed attribute already present".into()) }
+                }
+            }
+            if !p.seals.is_empty() {
+                if rb.add_raw_attribute(RawAttribute::new(AttributeType::new(0x7e7e), &V5)).is_err() { refused_ok += 1 } else { accepted = Some("raw attribute after a seal".into()) }
+                if p.seals.contains(&SealSpec::Fp) && rb.add_fingerprint().is_ok() {
+                    accepted = Some("second fingerprint".into());
+                }
+            }
+            if let Some(what) = accepted {
+                return Err(format!("an operation that must be refused was accepted: {what}"));
+            }
+            if refused_ok > 0 {
+                let mut d = vec![0x77u8; bl + 64];
+                let after = (rb.build(), rb.byte_len(), rb.write_into(&mut d).map(|n| d[..n].to_vec()).map_err(|e| format!("{e:?}")));
+                alt.push(("after-refused-additions.build", Ok(after.0)));
+                alt.push(("after-refused-additions.write_into", if after.1 == bl { after.2 } else { Err(format!("byte_len() {} after refused additions, {bl} before", after.1)) }));
+            }
+        }
         // the same additions with the builder measured / serialised / cloned between them
         let ob = apply_program_observed(p, &objs)?;
         let obl = ob.byte_len();
